@@ -19,3 +19,12 @@ for s in sys.argv[1:]:
     else:
         tail = [l for l in out.splitlines() if l.startswith(prop) or 'HARNESS' in l or 'exit(' in l]
         print(sid, 'MISSED', ' | '.join(t[:160] for t in tail[-3:]))
+        # which other properties are anchored in the changed files? run their checks too (triage only)
+        import json
+        patch = open(d + '/SEED/patch.diff').read()
+        files = set(re.findall(r'^\+\+\+ b/(\S+)', patch, re.M))
+        others = [json.loads(l)['id'] for l in open('/verif/properties.jsonl') if set(json.loads(l)['anchors']['files']) & files and json.loads(l)['id'] != prop]
+        for o in others:
+            out2 = subprocess.run(['/verif/tools/seedcheck.sh', d, o], capture_output=True, text=True).stdout
+            sigs2 = sorted(set(re.findall(r'VIOLATION property=\S+ replay=\S+ sig=(\S+)', out2)))
+            print('   ', sid, 'under', o + ':', 'CAUGHT ' + ' '.join(sigs2[:3]) if sigs2 else 'silent')
